@@ -6,7 +6,7 @@ CONSTANTS
   BatchCount = 2
   Sizes = {1}
   BatchBytes = 0
-  SendUnderLock = FALSE
+  SendUnderLock = TRUE
   WithStop = FALSE
 INVARIANTS StopSafe SizeBound CommitOnlySent CommitOnce CommitInSeqOrder Staleness
 PROPERTIES AllCommitted
